@@ -1,4 +1,5 @@
 """C18 -- connection URIs round-trip: parse(build(x)) = x, same database is opened."""
+import ipaddress
 import itertools
 import re
 import unicodedata
@@ -19,7 +20,7 @@ IMPL_TIMEOUT = 1200
 RULE = ('seven kinds of cases. build: DBConnection.uri() then _parseURI on components drawn from an alphabet of every '
         'URI-reserved character, unreserved ones, %, hex digits, whitespace/control, 2/3/4-byte UTF-8 boundary code points '
         '(lengths 0..6; every alphabet character alone and next to a letter in every slot; None vs ""), ports None, 0, 1, 80, '
-        '65535, 65536, negative, huge, str, hosts valid and malformed, dbNames valid and malformed; parse: _parseURI/urlparse '
+        '65535, 65536, negative, huge, str, hosts valid (incl. IPv6 addresses) and malformed, dbNames valid and malformed; parse: _parseURI/urlparse '
         'on templated URIs encoded by the generator\'s own percent-encoder (intent recorded: user, password, host, port text, '
         'path, query), on single-character mutations of them and on literal URIs, with os.name posix and nt; sqlite: '
         'SQLiteConnection(name).uri(), _parseURI, connectionForURI(uri).filename for absolute, relative and :memory: names; '
@@ -44,7 +45,8 @@ TRUSTED_BASE = [
     'patching os.name in the harness); open_uri: scheme dispatch of connectionForURI for the sqlite scheme only (per-URI '
     'connection cache and instance names not modelled)',
     'outside the model (answer RUnm, not compared, excluded from the theorems): netloc containing both [ and ] '
-    '(_check_bracketed_host needs ipaddress), non-ASCII netloc (_checknetloc needs NFKC; str.lower of non-ASCII)',
+    '(_check_bracketed_host needs ipaddress), non-ASCII netloc (_checknetloc needs NFKC; str.lower of non-ASCII); the '
+    'correspondence checks that the model answers RUnm on exactly the cases the plugin flags by its own description of that class',
     'assumed: components are str or None, port is int or None (bool/float ports not modelled); the attributes user, password, '
     'host, port, db, dbName are set on the connection; python without -O (the assert in uri() is live)',
     'the correspondence harness tools/props/c18.py and the cases.v evaluation',
@@ -62,6 +64,7 @@ ALPHABET = list(RESERVED + UNRESERVED + HEXY + SPACE + OTHER) + NONASCII
 SURROGATES = ['\ud800', '\udfff']
 HOST_OK = list('hH0-._~ %!$&\'()*+,;=|"') + ['x', 'Y']
 HOST_BAD = list('/?#@:[]\t\r\n') + ['\u00e9', '\u2100', '\u0130']
+IPV6_HOSTS = ['::1', 'fe80::1', '2001:db8::8a2e:370:7334', '::ffff:1.2.3.4', '::', 'FE80::A']
 PORTS = [None, None, 1, 80, 3306, 5432, 65535, 0, 65536, -1, -80, 70000, 10 ** 12, 'abc', '80', '']
 NAMES_OK = ['mysql', 'postgres', 'sqlite', 'http', 'MySQL', 'x+y-z.1', 'ftp', 'tel']
 NAMES_BAD = ['1sql', 'my sql', '', '\u00e9x', 'a_b', 'my\tsql']
@@ -121,6 +124,10 @@ def gen_build_systematic():
         for host in (None, '', 'h', 'Ho.St'):
             for port in (None, 0, 1, 65535, 65536, -1, 'abc'):
                 out.append(build_case('mysql', user, pw, host, port, 'db'))
+    for h in IPV6_HOSTS + ['[::1]', '[::1', '::1]', 'h:1', ':', '1:2:3']:
+        for port in (None, 3306, 0, 65536):
+            out.append(build_case('mysql', 'u', 'p', h, port, 'db'))
+            out.append(build_case('postgres', None, None, h, port, 'db'))
     for name in NAMES_OK + NAMES_BAD:
         out.append(build_case(name, 'u', 'p', 'h', 1, 'a;b'))
         out.append(build_case(name, None, None, None, None, '/var/run/db'))
@@ -148,6 +155,8 @@ def random_build(rng):
     r = rng.random()
     if r < 0.1:
         host = None if rng.random() < 0.5 else ''
+    elif r < 0.13:
+        host = rng.choice(IPV6_HOSTS)
     elif r < 0.85:
         host = rstr(rng, HOST_OK, 6, 1)
     else:
@@ -258,6 +267,7 @@ def corpus():
         build_case('postgres', 'u', 'p', None, 5433, 'db'),             # port_without_host_dropped
         {'k': 'sqlite_params', 'name': 'p.db', 'args': [['debug', '1'], ['cache', '0']]},   # params_not_in_uri
         sqlite_case('/:memory:'),                                       # sqlite_root_memory_name
+        build_case('mysql', 'u', 'p', '::1', 3306, 'db'),               # ipv6_host_not_bracketed
         # the defect fixed in /repo (f49b75a): '/' in user or password
         build_case('mysql', 'a/b', 'p/q', 'h', 3306, 'db'),
         # past disagreements of the model, kept as regression cases
@@ -558,11 +568,12 @@ def coq_case(c, o):
         return '(KDecode [%s] %s)' % ('; '.join(str(b) for b in c['bs']), cstr(o['out']))
     if k == 'parse':
         f = 'None' if o['fields'] is None else '(Some [%s])' % '; '.join(cstr(x) for x in o['fields'])
-        return '(KParse %s %s %s %s)' % (cbool(c['nt']), cstr(c['uri']), f, coparse(o))
+        return '(KParse %s %s %s %s %s)' % (cbool(c['nt']), cbool(uri_unmodelled(c['uri'])), cstr(c['uri']), f, coparse(o))
     if k == 'build':
         p = '(Some %s)' % coparse(o) if o['uri'] is not None else 'None'
-        return '(KBuild %s %s %s %s %s %s %s %s)' % (cuv(c['name']), cuv(c['user']), cuv(c['pw']), cuv(c['host']),
-                                                    cuv(c['port']), cuv(c['db']), cotext(o['uri'], o['err']), p)
+        unm = o['uri'] is not None and uri_unmodelled(o['uri'])
+        return '(KBuild %s %s %s %s %s %s %s %s %s)' % (cbool(unm), cuv(c['name']), cuv(c['user']), cuv(c['pw']), cuv(c['host']),
+                                                       cuv(c['port']), cuv(c['db']), cotext(o['uri'], o['err']), p)
     if k in ('sqlite', 'sqlite_file'):
         fn = c['fn'] if k == 'sqlite' else o['fn']
         if o.get('uri') is not None:
@@ -570,9 +581,10 @@ def coq_case(c, o):
             op = '(Some %s)' % cotext(o['opened'], o['oerr'])
         else:
             p = op = 'None'
-        return '(KSqlite %s %s %s %s %s)' % (cbool(c.get('nt', False)), cuv(fn), cotext(o.get('uri'), o.get('err')), p, op)
+        unm = o.get('uri') is not None and uri_unmodelled(o['uri'])
+        return '(KSqlite %s %s %s %s %s %s)' % (cbool(c.get('nt', False)), cbool(unm), cuv(fn), cotext(o.get('uri'), o.get('err')), p, op)
     if k == 'sqlite_params':
-        return '(KOpen false %s %s)' % (cstr(o['uri0']), cotext(o['opened0'], o['oerr0']))
+        return '(KOpen false %s %s %s)' % (cbool(uri_unmodelled(o['uri0'], True)), cstr(o['uri0']), cotext(o['opened0'], o['oerr0']))
     raise ValueError(k)
 
 
@@ -584,8 +596,18 @@ def has_surrogate(s):
     return any(0xd800 <= ord(ch) <= 0xdfff for ch in s)
 
 
+def is_ipv6(h):
+    if not isinstance(h, str) or '%' in h:
+        return False
+    try:
+        ipaddress.IPv6Address(h)
+        return True
+    except ValueError:
+        return False
+
+
 def host_in_domain(h):
-    if h is None or h == '':
+    if h is None or h == '' or is_ipv6(h):
         return True
     if not isinstance(h, str) or has_surrogate(h) or any(ch in '/?#@:[]\t\r\n' for ch in h):
         return False
@@ -642,7 +664,8 @@ def oracle_build(c, o):
     if o['uri'] is None:
         return fail('uri() raised %s on valid components' % o['err'], got=o)
     if parsed is None:
-        return fail('the reported URI %r does not parse (%s)' % (o['uri'], o.get('perr')), got=o)
+        return fail('the reported URI %r does not parse (%s)' % (o['uri'], o.get('perr')),
+                    'ipv6_host_not_bracketed' if (is_ipv6(host) and o.get('perr') == 'ValueError') else None, got=o)
     if good_rest and parsed[3] == port:
         return None
     finding = None
@@ -785,19 +808,36 @@ def key(c):
     return c
 
 
+C0_SPACE = ''.join(chr(i) for i in range(33))
+
+
+def uri_unmodelled(uri, sqlite_open=False):
+    """The plugin's own description of the inputs the urllib model leaves out (answer RUnm): after urlsplit's
+    preprocessing the network location contains both '[' and ']' (ipaddress needed), or -- with no bracket at all --
+    a non-ASCII character (NFKC tables needed).  With sqlite_open, connectionForURI's dispatch is included: a scheme
+    other than 'sqlite' is not modelled."""
+    if sqlite_open:
+        if ':' not in uri:
+            return False
+        if uri.split(':', 1)[0] != 'sqlite':
+            return True
+    url = uri.lstrip(C0_SPACE).replace('\t', '').replace('\r', '').replace('\n', '')
+    i = url.find(':')
+    if i > 0 and re.match(r'^[A-Za-z][A-Za-z0-9+.\-]*$', url[:i]):
+        url = url[i + 1:]
+    if url[:2] != '//':
+        return False
+    netloc = re.split(r'[/?#]', url[2:], maxsplit=1)[0]
+    if '[' in netloc or ']' in netloc:
+        return '[' in netloc and ']' in netloc
+    return not netloc.isascii()
+
+
 def unmodelled(c, o):
-    """mirror of the model's RUnm (for the distribution only)"""
-    uri = c.get('uri') if c['k'] == 'parse' else o.get('uri')
-    if not isinstance(uri, str) or c['k'] not in ('parse', 'build', 'sqlite'):
+    uri = c.get('uri') if c['k'] == 'parse' else o.get('uri0') if c['k'] == 'sqlite_params' else o.get('uri')
+    if not isinstance(uri, str):
         return False
-    m = re.match(r'^[\x00-\x20]*[A-Za-z][A-Za-z0-9+.\-]*:', uri.replace('\t', '').replace('\r', '').replace('\n', ''))
-    rest = uri.replace('\t', '').replace('\r', '').replace('\n', '').lstrip(''.join(chr(i) for i in range(33)))
-    if m:
-        rest = rest.split(':', 1)[1]
-    if not rest.startswith('//'):
-        return False
-    netloc = re.split(r'[/?#]', rest[2:], 1)[0]
-    return ('[' in netloc and ']' in netloc) or not netloc.isascii()
+    return uri_unmodelled(uri)
 
 
 def distribution(cases, obs):
